@@ -140,10 +140,21 @@ impl<F: Fn(pipe::SimplexDirection, usize) + Send + Sync> LeftPipe<F> {
         #[cfg(trusttunnel_verif)]
         let mut verif_outcome =
             crate::verif::udp::Outcome::new("NewConn", meta.source, meta.destination);
-        self.shared
+        if let Err(e) = self
+            .shared
             .forwarder_shared
             .on_new_udp_connection(meta)
-            .await?;
+            .await
+        {
+            // The flow was not created: do not leave its entry behind, otherwise the next
+            // datagram of the pair is written to a socket which does not exist
+            self.shared
+                .udp_connections
+                .lock()
+                .unwrap()
+                .remove(&forwarder::UdpDatagramMeta::from(meta));
+            return Err(e);
+        }
         #[cfg(trusttunnel_verif)]
         verif_outcome.ok();
 
